@@ -1,0 +1,36 @@
+//go:build verif
+
+package compile
+
+// Contracts for the deductive verification in /verif (comment-only file).
+
+// ---- line-number table (C16): one decoder step, shared by encoder and decoder contracts.
+//@ specfn dec_pc(p u32, x u16) u32 = p + (uint32(x) >> 12)
+//@ specfn dec_line(l i32, x u16) i32 = l + int32((int16(x) << 4) >> 11)
+//@ specfn dec_col(c i32, x u16) i32 = c + int32((int16(x) << 9) >> 10)
+
+//@ func clip
+//@   prop C16
+//@   arith bv
+//@   requires min <= max
+//@   nopanic
+//@   ensures (x > max ==> result0 == max && !result1) && (x < min ==> result0 == min && !result1) && (min <= x && x <= max ==> result0 == x && result1)
+
+// Encoder: every row appended to the table decodes (one decoder step from the previous
+// position) to the encoder's new position, and a row is marked complete exactly when that
+// position is the instruction's.
+//@ func fcomp.generate
+//@   prop C16
+//@   arith bv
+//@   snap /deltapc := pc - prev.pc/ ppc = prev.pc
+//@   snap /deltapc := pc - prev.pc/ pline = prev.line
+//@   snap /deltapc := pc - prev.pc/ pcol = prev.col
+//@   assert /pclinetab = append\(pclinetab, entry\)/ step_inverse: dec_pc(ppc, entry) == prev.pc && dec_line(pline, entry) == prev.line && dec_col(pcol, entry) == prev.col
+//@   assert /pclinetab = append\(pclinetab, entry\)/ complete_iff_reached: ((entry & 1) == 0) <==> (prev.pc == pc && prev.line == insn.line && prev.col == insn.col)
+
+// Decoder: one loop iteration is exactly one decoder step; only complete rows are recorded.
+//@ func Funcode.decodeLNT
+//@   prop C16
+//@   arith bv
+//@   bodyensures 1 step: entry.pc == dec_pc(old(entry.pc), x) && entry.line == dec_line(old(entry.line), x) && entry.col == dec_col(old(entry.col), x)
+//@   assert /fn.lnt = append\(fn.lnt, entry\)/ only_complete_rows: (x & 1) == 0
